@@ -94,16 +94,18 @@ Theorem C12_arcs_tie_order :
        (w i a < w i j)%Z \/ (w i a = w i j /\ a < j)).
 Proof. exact arcs_tie_order. Qed.
 
-(* Any starting subgraph with n nodes and a non-negative density bound: the new arcs [nbrs k n w i] are PREPENDED to
-   the existing lists, the density bound only grows, radii / n_plateaus are reset, the rest is untouched. *)
+(* Any starting subgraph with n nodes, whatever density bound an earlier call left in it: the new arcs [nbrs k n w i]
+   are PREPENDED to the existing lists, the density bound is the TRUE maximum of the new radii (the method resets it
+   first - before the fix 67b9676 of /repo it was only raised, see DESIGN.md 6/F12), radii / n_plateaus are reset,
+   the rest is untouched. *)
 Theorem C12_arcs_general :
   forall (zero top thr one : Z) (k n : nat) (w : nat -> nat -> Z) (g : @knn Z),
-    length (k_adj g) = n -> length (k_radius g) = n -> (zero <= k_gdens g)%Z ->
+    length (k_adj g) = n -> length (k_radius g) = n ->
     (forall i j, i < n -> j < n -> i <> j -> (zero <= w i j < top)%Z) ->
     forall g' maxd, create_arcs Z.ltb zero top thr one k n w g = (g', maxd) ->
     let N := nbrs k n w in
     let rad i := last (map (w i) (N i)) zero in
-    let M := Z.max (k_gdens g) (fold_right Z.max zero (map rad (seq 0 n))) in
+    let M := fold_right Z.max zero (map rad (seq 0 n)) in
     length (k_adj g') = n /\ length (k_radius g') = n /\
     (forall i, i < n -> nth i (k_adj g') [] = N i ++ nth i (k_adj g) []) /\
     (forall i, i < n -> nth i (k_radius g') zero = rad i) /\
